@@ -92,6 +92,8 @@ def generate(tier, rng):
             yield dict(c, ops=c["ops"][:-1] + [v])
     for n0, ops in fc.wide_histories(rng, tier):
         fl = rng.choice(["nm", "nm", "light"])
+        if any(fc.has_nonnode(o) for o in ops):
+            fl = "nm"
         c = fc.mk(fl, False, n0, ops, cls=(rng.choice(fc.NM_CLASSES) if fl == "nm" else None))
         c["loglevel"] = 0
         yield c
